@@ -6,6 +6,7 @@ import (
 	"compress/gzip"
 	"fmt"
 	"os"
+	"os/exec"
 	"path/filepath"
 	"sort"
 	"strings"
@@ -22,7 +23,7 @@ type Scenario struct {
 	Sub    string `json:"internal_dir"` // internalArchiveSrcDir ("" or "top")
 	Faults bool   `json:"faults"`       // download failures on the environment's menu
 	Jumps  bool   `json:"clock_jumps"`
-	Fn     string `json:"entry"` // lib | wasi
+	Fn     string `json:"entry"` // lib | wasi | esp
 	Small  bool   `json:"small_tree"`
 	Kinds  int    `json:"fault_kinds"` // 0 = all three
 }
@@ -63,6 +64,40 @@ func archive(prefix string) []byte {
 	tw.Close()
 	gz.Close()
 	return buf.Bytes()
+}
+
+var xzCache = map[string][]byte{}
+
+// archiveXz: the same tree below prefix as a .tar.xz made by the system tar (extractTarXz runs the system tar as well)
+func archiveXz(prefix string) []byte {
+	key := fmt.Sprintf("%s/%d", prefix, len(tree))
+	if b, ok := xzCache[key]; ok {
+		return b
+	}
+	dir, err := os.MkdirTemp(os.Getenv("VERIF_SCRATCH"), "xz")
+	if err != nil {
+		panic(err)
+	}
+	defer os.RemoveAll(dir)
+	for n, c := range tree {
+		p := filepath.Join(dir, prefix, n)
+		if strings.HasSuffix(n, "/") {
+			os.MkdirAll(p, 0755)
+			continue
+		}
+		os.MkdirAll(filepath.Dir(p), 0755)
+		os.WriteFile(p, []byte(c), 0644)
+	}
+	out := filepath.Join(dir, "a.tar.xz")
+	if b, err := exec.Command("tar", "-cJf", out, "-C", dir, prefix).CombinedOutput(); err != nil {
+		panic(fmt.Sprintf("tar -cJf: %v %s", err, b))
+	}
+	data, err := os.ReadFile(out)
+	if err != nil {
+		panic(err)
+	}
+	xzCache[key] = data
+	return data
 }
 
 // complete reports what is wrong with the published copy ("" = complete and exact).
@@ -108,7 +143,11 @@ func Run(s *vs.Sched, sc Scenario, root string) Outcome {
 	vtime.Reset()
 	vtime.Jumps = sc.Jumps
 	url := "http://verif.invalid/dl/lib-1.0.tar.gz"
+	espURL := fmt.Sprintf("%s/clang-esp-%s-%s.tar.xz", espClangBaseUrl, espClangVersion, "vt")
 	vhttp.Bodies = map[string][]byte{url: archive(sc.Sub), wasiSdkUrl: archive(wasiMacosSubdir)}
+	if sc.Fn == "esp" {
+		vhttp.Bodies[espURL] = archiveXz("esp-clang")
+	}
 	vhttp.Faults, vhttp.Gets, vhttp.Failures = sc.Faults, 0, 0
 	vhttp.Kinds = 3
 	if sc.Kinds > 0 {
@@ -121,6 +160,10 @@ func Run(s *vs.Sched, sc Scenario, root string) Outcome {
 		top = filepath.Join(cache, "sdk")
 		dst = filepath.Join(top, wasiMacosSubdir)
 	}
+	if sc.Fn == "esp" {
+		dst = filepath.Join(cache, "esp-clang-0")
+		top = dst
+	}
 	errs := make([]error, sc.N)
 	returned := make([]bool, sc.N)
 	for i := 0; i < sc.N; i++ {
@@ -128,6 +171,8 @@ func Run(s *vs.Sched, sc Scenario, root string) Outcome {
 		s.Go(func() {
 			if sc.Fn == "wasi" {
 				_, errs[i] = checkDownloadAndExtractWasiSDK(top)
+			} else if sc.Fn == "esp" {
+				errs[i] = checkDownloadAndExtractESPClang("vt", dst)
 			} else {
 				errs[i] = checkDownloadAndExtractLib(url, dst, sc.Sub)
 			}
